@@ -41,10 +41,11 @@
  *     succeeding calls only.
  *
  *   VP_OP 0  SEQUENCE from create with CONCRETE sizes VP_S0..VP_S2 from a menu
- *     that straddles 64 KiB, a symbolic flush/sync/none after each append,
- *     symbolic close, destroy: cross-check of the inductive argument on whole
- *     runs (an invariant that was too weak or a havoc that was too narrow would
- *     show up here).
+ *     that straddles 64 KiB and a concrete flush/sync/none (VP_O0..VP_O2) after
+ *     each append, close (VP_CLOSE), destroy; at most VP_FAILS failing calls,
+ *     VP_SHORTS short writes and VP_INTRS EINTR at symbolic places: cross-check
+ *     of the inductive argument on whole runs (an invariant that was too weak
+ *     or a havoc that was too narrow would show up here).
  */
 #ifndef VP_OP
 #define VP_OP 1
@@ -123,6 +124,7 @@ static ldb_wfile_t *vp_wf;
 static size_t vp_appended;      /* bytes passed to append so far */
 static size_t vp_lost;          /* bytes discarded inside calls that returned a write error */
 static int vp_errors;           /* API calls that returned an error (or: an error was reported earlier) */
+static char *vp_dirname0;
 static int vp_recovered, vp_wrapped, vp_sync_ok, vp_close_ok, vp_dirsync_seen, vp_err_seen, vp_step_err;
 
 static void
@@ -154,6 +156,11 @@ vp_after_call(int rc, size_t pos_now) {
     vp_errors++;
   }
   VP_ASSERT(pos_now <= VP_WBUF, "pos stays inside the buffer");
+  VP_ASSERT(vp_wf->manifest == vp_cases[VP_NAME].manifest && vp_wf->dirname == vp_dirname0 &&
+            (vp_wf->fd == vp_data_fd || (vp_wf->fd == -1 && vp_nopen == 0)),
+            "the other fields of the file object never change (fd only by close)");
+  VP_ASSERT(vp_wf->fd == -1 || (vp_nopen == 1 && vp_fd_ok(vp_data_fd)),
+            "exactly the file's descriptor is open after every call");
   /* vp_expect advances only by bytes write(2) accepted, except for the jump
      above inside a call that returned a write error: so this says that every
      appended byte was accepted in order, or is still buffered, or was
@@ -288,7 +295,7 @@ harness(void) {
   vp_name_file[1] = 1;
 
   /* ---- create: establishes INV ------------------------------------------ */
-#if VP_OP >= 1 && VP_OP <= 5
+#if (VP_OP >= 1 && VP_OP <= 5) || (VP_OP == 0 && VP_FAILS == 0 && VP_SHORTS == 0 && VP_INTRS == 0)
   vp_quiet = 1;     /* create with failing / interrupted open(2) is the VP_OP 6 obligation */
 #endif
   vp_begin_call();
@@ -302,7 +309,7 @@ harness(void) {
     VP_ASSERT(vp_hard_fail && vp_hard_call == 1 && rc == vp_hard_errno, "create fails only with the errno of open(2)");
     VP_ASSERT(vp_wf == NULL, "no file object on failure");
     VP_ASSERT(vp_nopen == 0, "no descriptor left open on failure");
-#if VP_OP == 0 || VP_OP == 6
+#if (VP_OP == 0 && VP_FAILS > 0) || VP_OP == 6
     VP_WITNESS("create-failed");
 #endif
     return;
@@ -327,7 +334,9 @@ harness(void) {
   VP_ASSERT(vp_wf->manifest == nc->manifest, "MANIFEST detection by base name");
   vp_data_fd = vp_wf->fd;
   vp_wbuf = vp_wf->buf;
-#if VP_OP == 0 || VP_OP == 6
+  vp_dirname0 = vp_wf->dirname;
+  VP_ASSERT((vp_wf->dirname != NULL) == (nc->manifest != 0), "directory name kept for MANIFEST files only");
+#if VP_OP == 6
   if (vp_saw_einval_open)
     VP_WITNESS("open-einval-retried-without-cloexec");
   if (vp_saw_eintr)
@@ -340,19 +349,17 @@ harness(void) {
 #elif VP_OP == 0
   /* ---- sequence: appends with symbolic flush / sync in between ----------- */
   for (k = 0; k < VP_K; k++) {
-    uint8_t op;
+    static const int ops[3] = { VP_O0, VP_O1, VP_O2 };   /* 0 none, 1 flush, 2 sync */
     vp_do_append(menu[k]);
-    op = vp_u8();
-    VP_ASSUME(op <= 2);
-    if (op == 1)
+    if (ops[k] == 1)
       vp_do_flush();
-    else if (op == 2)
+    else if (ops[k] == 2)
       vp_do_sync(nc->manifest);
   }
-  if (vp_bool()) {
-    vp_do_close();
-    closed = 1;
-  }
+#  if VP_CLOSE
+  vp_do_close();
+  closed = 1;
+#  endif
   vp_do_destroy();
 #else
   /* ---- inductive step: arbitrary state satisfying INV ---------------------- */
@@ -392,16 +399,24 @@ harness(void) {
 
   /* ---- reachability witnesses ------------------------------------------- */
 #if VP_OP == 0
+#  if VP_CLOSE
   if (vp_errors == 0 && closed && vp_close_ok && vp_accepted == vp_appended && vp_appended > 0)
     VP_WITNESS("all-ok-everything-accepted");
+#  endif
+#  ifdef VP_WRECOVER
   if (vp_recovered)
     VP_WITNESS("flush-after-failed-write-sends-only-new-bytes");
+#  endif
 #endif
-#if VP_OP == 0 || VP_OP == 1 || VP_OP == 2 || VP_OP == 3 || VP_OP == 4
+#if (VP_OP == 0 && VP_FAILS > 0) || VP_OP == 1 || VP_OP == 2 || VP_OP == 3 || VP_OP == 4
+#  if VP_SHORTS > 0
   if (vp_saw_short && vp_errors == 0)
     VP_WITNESS("short-write-handled");
+#  endif
+#  if VP_INTRS > 0
   if (vp_saw_eintr && vp_errors == 0)
     VP_WITNESS("eintr-retried");
+#  endif
   if (vp_err_seen)
     VP_WITNESS("write-error-returned");
 #endif
@@ -414,13 +429,19 @@ harness(void) {
     VP_WITNESS("append-straddles-buffer");
 #endif
 #if VP_OP == 0 || VP_OP == 3
+#  if VP_OP == 3 || defined(VP_WSYNC)
   if (vp_sync_ok)
     VP_WITNESS("sync-ok");
+#  endif
+#  if VP_OP == 3
   if (vp_step_err)
     VP_WITNESS("sync-step-failed-and-reported");
-#  if VP_NAME == 1 || VP_NAME == 2 || VP_NAME == 3 || VP_NAME == 5
+#  endif
+#  if (VP_OP == 3 || defined(VP_WSYNC)) && (VP_NAME == 1 || VP_NAME == 2 || VP_NAME == 3 || VP_NAME == 5)
   if (vp_dirsync_seen)
     VP_WITNESS("manifest-directory-synced-first");
+#  endif
+#  if VP_OP == 3 && (VP_NAME == 1 || VP_NAME == 2 || VP_NAME == 3 || VP_NAME == 5)
   if (vp_dirsync_seen && vp_tolerated)
     VP_WITNESS("directory-fsync-einval-tolerated");
 #  endif
